@@ -367,7 +367,7 @@ def describe(case):
 
 
 def run(ctx):
-    ctx.build(FILES)
+    ctx.build_with_translator(FILES)
     ctx.cov['rule'] = ('random small images (binary, plateaus, ramps, ties at threshold, blobs, diagonal contacts, NaN/inf data, 2-D '
                        'thresholds incl. NaN/inf entries, masks, integer/float32 dtypes) and larger frames of irregular '
                        'components with overlapping bounding boxes, x connectivity x npixels drawn near component sizes '
